@@ -5,6 +5,9 @@ environment (hash computation, command execution, reporter, database)."""
 
 from __future__ import annotations
 
+import stepup.core.executor  # noqa: F401  (imported before CrossHair starts tracing)
+import stepup.core.scheduler  # noqa: F401
+
 
 def _drive(coro):
     try:
